@@ -306,6 +306,9 @@ pub struct BViol {
     pub oracle: &'static str,
     pub detail: String,
     pub step: usize,
+    /// the observation is wrong but model and tree still agree on the position: the case goes on, so that a check for
+    /// another property still sees what the same state does to its own operations
+    pub soft: bool,
 }
 
 #[derive(Default, Clone, Copy)]
@@ -425,7 +428,7 @@ pub struct BInterp<'a> {
 
 fn viol(v: &mut Vec<BViol>, prop: &'static str, oracle: &'static str, detail: String, step: usize) {
     if !v.iter().any(|x| x.prop == prop) {
-        v.push(BViol { prop, oracle, detail, step });
+        v.push(BViol { prop, oracle, detail, step, soft: false });
     }
 }
 
@@ -547,8 +550,16 @@ impl<'a> BInterp<'a> {
         let mut path = String::new();
         walk_struct(root, &self.model, &mut path, &mut bad, self.st, &mut self.flags);
         for (p, o, d) in bad {
+            let soft = matches!(o, "has_remaining" | "chunk-empty-but-bytes-remain");
+            let n = self.viols.len();
             self.v(p, o, d);
+            if soft && self.viols.len() > n {
+                self.viols[n].soft = true;
+            }
         }
+    }
+    pub fn hard_viol(&self) -> bool {
+        self.viols.iter().any(|v| !v.soft)
     }
 
     pub fn exec(&mut self, code: u8, a: u32, b: u32) {
